@@ -245,7 +245,7 @@ def _(Hh, rng):
     if leg.ind_len == 0 or size(a) * leg.ind_len > MAX_SIZE:
         return None
     return dict(a=n, out=Hh.fresh(), leg=dict(pool=pi, conj=rng.random() < 0.5), i=rng.randrange(-leg.ind_len, leg.ind_len),
-                axis=rng.randrange(-a.rank, a.rank), label=free_label(a, rng))
+                axis=rng.randrange(-a.rank, a.rank + 1), label=free_label(a, rng))
 
 
 @g('squeeze')
@@ -437,6 +437,19 @@ def has_blocks(a):
     return all(l.block_number > 0 for l in a.legs) and len(set(lab)) == len(lab)
 
 
+def combine_labels_ok(a, groups):
+    """labels of combine_legs(groups) as the code builds them ('?<i>' for anonymous legs, '(x.y)' for pipes) must be
+    distinct, otherwise the call raises 'Duplicate label entry' (labels are C01's subject)"""
+    lab = [(l if l is not None else '?' + str(i)) for i, l in enumerate(a._labels)]
+    comb = [x for g in groups for x in g]
+    out = [lab[i] for i in range(a.rank) if i not in comb] + ['(' + '.'.join(lab[c] for c in g) + ')' for g in groups]
+    return len(set(out)) == len(out)
+
+
+def blocked_independent(l):
+    return len({tuple(int(x) for x in c) for c in l.charges}) == l.block_number
+
+
 @g('sort_legcharge')
 def _(Hh, rng):
     n = pick(Hh, rng, lambda a: size(a) <= MAX_SIZE and has_blocks(a))
@@ -450,6 +463,8 @@ def _(Hh, rng):
         s, b = [rng.random() < 0.6 for _ in range(a.rank)], [rng.random() < 0.6 for _ in range(a.rank)]
         sc = False
     if not any(x or y for x, y in zip(s, b)):
+        return None
+    if not combine_labels_ok(a, [[k] for k in range(a.rank) if s[k] or b[k]]):
         return None
     return dict(a=n, out=Hh.fresh(), sort=s, bunch=b, scalar_args=sc)
 
@@ -542,13 +557,16 @@ def _(Hh, rng):
     if new_axes is not None and rng.random() < 0.3:
         new_axes = [x - new_rank if rng.random() < 0.5 else x for x in new_axes]
     qconjs = [rng.choice([None, None, 1, -1]) for _ in groups]
+    if not combine_labels_ok(a, groups):
+        return None
     return dict(a=n, out=Hh.fresh(), groups=groups, new_axes=new_axes, qconjs=qconjs, lab=rng.random() < 0.5,
                 flat=rng.random() < 0.5)
 
 
 @g('as_completely_blocked')
 def _(Hh, rng):
-    n = pick(Hh, rng, lambda a: size(a) <= MAX_SIZE and has_blocks(a))
+    n = pick(Hh, rng, lambda a: size(a) <= MAX_SIZE and has_blocks(a)
+             and combine_labels_ok(a, [[k] for k, l in enumerate(a.legs) if not blocked_independent(l)]))
     return n and dict(a=n, out=Hh.fresh())
 
 
@@ -613,8 +631,8 @@ def _(Hh, rng):
     for n in names(Hh):
         for m in names(Hh):
             a, b = Hh.env[n], Hh.env[m]
-            if a.chinfo != b.chinfo or not (no_zero_blocks(a) and no_zero_blocks(b)):
-                continue   # (the pure-Python tensordot cannot reshape zero-size blocks: C04's subject)
+            if a.chinfo != b.chinfo:
+                continue
             pairs = contractible_pairs(a, b, False)
             if pairs:
                 cands.append((n, m, pairs))
